@@ -10,6 +10,7 @@ import (
 	"path/filepath"
 	"regexp"
 	"runtime"
+	"runtime/pprof"
 	"sort"
 	"strconv"
 	"strings"
@@ -51,6 +52,7 @@ type Harness struct {
 	Redirect      map[string]string         `json:"redirect"`
 	Blackhole     []string                  `json:"blackhole"`
 	SkipFuncs     []string                  `json:"skip_funcs"`
+	NoModelCache  bool                      `json:"no_model_cache"`
 	Tiers         []string                  `json:"tiers"` // tiers in which the harness runs (default both)
 	Claim         string                    `json:"claim"`
 	Assumptions   []string                  `json:"assumptions"`
@@ -182,6 +184,11 @@ func main() {
 		fmt.Fprintln(os.Stderr, "usage: vcheck -p <property> [-tier quick|thorough]")
 		os.Exit(2)
 	}
+	if pf := os.Getenv("VERIF_CPUPROFILE"); pf != "" {
+		f, _ := os.Create(pf)
+		pprof.StartCPUProfile(f)
+		defer pprof.StopCPUProfile()
+	}
 	t0 := time.Now()
 	spec, err := loadSpec(*prop)
 	if err != nil {
@@ -269,6 +276,7 @@ func main() {
 		fmt.Printf("HELD property=%s tier=%s: %d harness(es), %d paths, %d assertion queries, %d solver queries (%d unsat, %d sat, %d unknown), solver %.1fs, wall %.1fs\n",
 			*prop, *tier, len(ev.harnesses), ev.paths, ev.assertQ, ev.queries, ev.nunsat, ev.nsat, ev.nunk, ev.soltime, ev.wall)
 	}
+	pprof.StopCPUProfile()
 	os.Exit(exit)
 }
 
@@ -447,7 +455,7 @@ func runHarness(spec *Spec, h *Harness, tier string, workers int, verbose bool, 
 	}
 	mkcfg := func() interp.Config {
 		return interp.Config{RTPath: repoMod + "/verifrt", Blackhole: append(append([]string(nil), defaultBlackhole...), h.Blackhole...),
-			SkipFuncs: skip, Redirect: redirect, MaxSteps: h.MaxSteps, PanicOK: h.PanicOK, Verbose: verbose, Params: hr.params}
+			NoModelCache: os.Getenv("VERIF_NOMODEL") != "" || h.NoModelCache, SkipFuncs: skip, Redirect: redirect, MaxSteps: h.MaxSteps, PanicOK: h.PanicOK, Verbose: verbose, Params: hr.params}
 	}
 	runJob := func(prefix []int, discover int) (*jobResult, error) {
 		sol, err := smt.New(hr.solver, timeout)
@@ -470,6 +478,7 @@ func runHarness(spec *Spec, h *Harness, tier string, workers int, verbose bool, 
 		in := interp.New(prog, sol, c)
 		in.Explore(entry, pre)
 		if os.Getenv("VERIF_PROFILE") != "" {
+			fmt.Fprintf(os.Stderr, "PROFILE solver check time %.1fs, total wait %.1fs\n", sol.Time.Seconds(), sol.WaitTime.Seconds())
 			type kv struct {
 				k string
 				v int
